@@ -9,11 +9,16 @@ args = sys.argv[1:]
 tier = "quick"
 if "--tier" in args:
     i = args.index("--tier"); tier = args[i + 1]; del args[i:i + 2]
+base, patchname = "HEAD", "patch.diff"
+if "--orig" in args:   # seed written against the original snapshot whose code path a later fix removed
+    args.remove("--orig"); base = "302d0b7"
 name, props = args[0], args[1:] or [args[0].split("_")[0]]
+if base != "HEAD" and os.path.exists(f"{ROOT}/seeded/{name}/patch.orig.diff"):
+    patchname = "patch.orig.diff"
 wt = f"/var/tmp/try_{os.getpid()}"
-subprocess.run(f"git -C /repo worktree add -q --detach {wt} HEAD", shell=True, check=True)
+subprocess.run(f"git -C /repo worktree add -q --detach {wt} {base}", shell=True, check=True)
 try:
-    r = subprocess.run(f"git apply {ROOT}/seeded/{name}/patch.diff", shell=True, cwd=wt, capture_output=True, text=True)
+    r = subprocess.run(f"git apply {ROOT}/seeded/{name}/{patchname}", shell=True, cwd=wt, capture_output=True, text=True)
     if r.returncode:
         print(name, "PATCH DOES NOT APPLY", r.stderr[:200]); sys.exit(2)
     for p in props:
